@@ -87,6 +87,8 @@ class ShmWire(Harness):
         tsolve = 0.0
         obligations = []
 
+        cross = {"agree": 0, "no-answer": 0, "disagree": 0}
+
         def check(s: z3.Solver):
             nonlocal queries, tsolve
             s.set("timeout", TIMEOUT_MS)
@@ -94,6 +96,27 @@ class ShmWire(Harness):
             r = s.check()
             tsolve += time.perf_counter() - q0
             queries += 1
+            if (tier == "thorough" or os.environ.get("VF_CVC5")) and str(r) in ("sat", "unsat"):
+                # second opinion from an independent solver (cvc5 binary) on the same SMT-LIB text
+                import subprocess
+                import tempfile
+
+                with tempfile.NamedTemporaryFile("w", suffix=".smt2", delete=False) as fh:
+                    fh.write("(set-logic ALL)\n" + s.to_smt2())
+                    path = fh.name
+                try:
+                    q1 = time.perf_counter()
+                    out = subprocess.run(["timeout", "120", "cvc5", "--strings-exp", path], capture_output=True, text=True).stdout.strip().split("\n")[0]
+                    tsolve += time.perf_counter() - q1
+                    queries += 1
+                finally:
+                    os.unlink(path)
+                if out in ("sat", "unsat"):
+                    cross["agree" if out == str(r) else "disagree"] += 1
+                    if out != str(r):
+                        hr.crashes.append({"fatal": f"z3 says {r}, cvc5 says {out} on the same query"})
+                else:
+                    cross["no-answer"] += 1
             return str(r)
 
         # digit lemma per width used
@@ -132,7 +155,7 @@ class ShmWire(Harness):
                 hr.inconclusive.append(o)
         hr.samples = [o for o in obligations if o["kind"] != "digit-lemma"][:3]
         hr.solver_queries, hr.solver_seconds = queries, tsolve
-        hr.detail = {"obligations": len(obligations), "discharged": sum(1 for o in obligations if o["result"] in ("unsat", "agree")),
+        hr.detail = {"second_solver_cvc5": cross, "obligations": len(obligations), "discharged": sum(1 for o in obligations if o["result"] in ("unsat", "agree")),
                      "classes": sorted(model.b2c.values())}
         hr.wall_s = time.perf_counter() - t0
         return hr
